@@ -150,6 +150,7 @@ def _mk_conditional(kind, R):
 def _mk_joint(kind, R):
     def ob(w):
         xp = w.xp
+        w.kernel_option("prefer_family_head", {"Dk"})
         obj, par, Kp = gen_feature_cond(w, kind)
         p_x, px = SP.gen_pdf(w, "x", R, "Dx")
         mu_s, Sy_s, Eyx_s = moment_spec(w, par, px, Kp, "Dx")
@@ -159,11 +160,17 @@ def _mk_joint(kind, R):
         S_xy = xp.concatenate([xp.concatenate([px["S"], xp.swapaxes(cov_yx, 1, 2)], axis=2),
                                xp.concatenate([cov_yx, Sy_s], axis=2)], axis=1)
         w.equal("joint/Sigma", joint.Sigma, S_xy)
-        # the precision of the joint is the Schur-complement inverse returned by the invert_matrix contract
-        # (GtvLemmas.inv_fromBlocks11/22); Sigma*Lambda = I for it needs the resolvent identity P_i - P_j = P_i (K_j - K_i) P_j
-        # between members of one inverse family, which the kernel's oriented rewriting does not complete -> only symmetry here
-        w.equal("joint/wf/Sigma-symmetric", joint.Sigma, xp.swapaxes(joint.Sigma, 1, 2))
-        w.equal("joint/wf/Lambda-symmetric", joint.Lambda, xp.swapaxes(joint.Lambda, 1, 2))
+        # wf of the joint: Lambda is the Schur-complement inverse returned by the invert_matrix contract
+        # (GtvLemmas.inv_fromBlocks11/22); Sigma*Lambda = I is re-derived by the kernel (needs the inverse family P_i =
+        # (Lx + K_i)^-1 oriented on K_i P_i, see kernel.register_inv), ln det by det_inv_of_mul_eq_one.  The lnZ clauses
+        # (nu' Sigma nu with nu = Lambda mu) exceed the canonicalisation budget and are not obligations here.
+        Sg, L = joint.Sigma, joint.Lambda
+        w.equal("joint/wf/Sigma*Lambda=I", xp.einsum("rij,rjk->rik", Sg, L), xp.eye(Sg.shape[-1])[None], broadcast=True)
+        w.equal("joint/wf/Sigma-symmetric", Sg, xp.swapaxes(Sg, 1, 2))
+        w.equal("joint/wf/Lambda-symmetric", L, xp.swapaxes(L, 1, 2))
+        w.equal("joint/wf/ln_det_Sigma=-LogDet[Lambda]", joint.ln_det_Sigma, -w.logdet(L))
+        w.equal("joint/wf/mu=Sigma*nu", joint.mu, xp.einsum("rij,rj->ri", Sg, joint.nu))
+        w.equal("joint/wf/nu=Lambda*mu", joint.nu, xp.einsum("rij,rj->ri", L, joint.mu))
     return ob
 
 
@@ -215,7 +222,7 @@ def _mk_hetero(kind, what):
     return ob
 
 
-def _mk_hetero_trunc(kind):
+def _mk_hetero_trunc(kind, what="moments"):
     """step / rectified-linear links: E[link(h)] under the 1-D law of h = w'x + w0 ~ N(m, s^2) through the truncated measure
     (C20 contracts):  E[step(h)] = Phi(m/s),  E[relu(h)] = m Phi(m/s) + s phi(m/s);  then the moments as for the other links"""
     from .C17 import gen_hetero
@@ -229,28 +236,49 @@ def _mk_hetero_trunc(kind):
         m = xp.einsum("ki,ri->rk", par["wv"], mu)[0] + par["w0"]
         s = xp.sqrt(xp.einsum("ki,rij,kj->rk", par["wv"], Sx, par["wv"])[0])
         ED = w.Phi(m / s) if kind == "heaviside" else m * w.Phi(m / s) + s * w.phi(m / s)
-        w.equal("integrate_noise_diagonal=E[link(h)]", obj._integrate_noise_diagonal(p_x), ED)
         M, b, Ak, A = par["M"][0], par["b"][0], par["Ak"][0], par["A"][0]
         mu_s = xp.einsum("ij,rj->ri", M, mu) + b[None]
         Sy_s = (xp.einsum("ia,ja->ij", A, A) + xp.einsum("ik,k,jk->ij", Ak, ED, Ak))[None] + xp.einsum("ij,rjk,lk->ril", M, Sx, M)
-        mu_y, Sigma_y = obj.get_expected_moments(p_x)                    # REAL
-        w.equal("get_expected_moments/mu", mu_y, mu_s)
-        w.equal("get_expected_moments/Sigma", Sigma_y, Sy_s)
-        p_y = obj.affine_marginal_transformation(p_x)                    # REAL
-        w.equal("marginal/mu", p_y.mu, mu_s)
-        w.equal("marginal/Sigma", p_y.Sigma, Sy_s)
+        cov_yx = xp.einsum("ij,rjk->rik", M, Sx)
+        if what == "moments":
+            w.equal("integrate_noise_diagonal=E[link(h)]", obj._integrate_noise_diagonal(p_x), ED)
+            mu_y, Sigma_y = obj.get_expected_moments(p_x)                    # REAL
+            w.equal("get_expected_moments/mu", mu_y, mu_s)
+            w.equal("get_expected_moments/Sigma", Sigma_y, Sy_s)
+            w.equal("get_expected_cross_terms", obj.get_expected_cross_terms(p_x), cov_yx + xp.einsum("ri,rj->rij", mu_s, mu))
+            p_y = obj.affine_marginal_transformation(p_x)                    # REAL
+            w.equal("marginal/mu", p_y.mu, mu_s)
+            w.equal("marginal/Sigma", p_y.Sigma, Sy_s)
+            wf_measure(w, "marginal", p_y, is_pdf=True)
+        elif what == "conditional":
+            Ly = w.inv(Sy_s)
+            post = obj.affine_conditional_transformation(p_x)               # REAL
+            M_s = xp.einsum("raj,rab->rjb", cov_yx, Ly)
+            w.equal("conditional/M", post.M, M_s)
+            w.equal("conditional/b", post.b, mu - xp.einsum("rjb,rb->rj", M_s, mu_s))
+            w.equal("conditional/Sigma", post.Sigma, Sx - xp.einsum("rjb,rbi->rji", M_s, cov_yx))
+            wf_conditional(w, "conditional", post)
+        else:
+            joint = obj.affine_joint_transformation(p_x)                     # REAL
+            w.equal("joint/mu", joint.mu, xp.concatenate([mu, mu_s], axis=1))
+            S_xy = xp.concatenate([xp.concatenate([Sx, xp.swapaxes(cov_yx, 1, 2)], axis=2),
+                                   xp.concatenate([cov_yx, Sy_s], axis=2)], axis=1)
+            w.equal("joint/Sigma", joint.Sigma, S_xy)
+            wf_measure(w, "joint", joint, is_pdf=True)
     return ob
 
 
 def _register():
     for kind, cls in (("heaviside", "HeteroscedasticHeavisideConditional"), ("relu", "HeteroscedasticReLUConditional")):
-        REG.ob(f"{cls}/moments", sorts=["Dy", "Dx", "Dk", "Dr"],
-               funcs=[f"approximate_conditional.{cls}._integrate_noise_diagonal", "approximate_conditional.HeteroscedasticConditional.integrate_Sigma_x",
+      for what in ("moments", "conditional", "joint"):
+        REG.ob(f"{cls}/{what}", sorts=["Dy", "Dx", "Dk", "Dr"],
+               funcs=[f"approximate_conditional.HeteroscedasticConditional.{m_}" for m_ in ("get_expected_cross_terms",
+                      "affine_joint_transformation", "affine_conditional_transformation", "affine_marginal_transformation")] + [f"approximate_conditional.{cls}._integrate_noise_diagonal", "approximate_conditional.HeteroscedasticConditional.integrate_Sigma_x",
                       "approximate_conditional.HeteroscedasticConditional.get_expected_moments", "pdf.GaussianPDF.get_density_of_linear_sum",
                       "experimental.truncated_measure.TruncatedGaussianMeasure.integral", "experimental.truncated_measure.TruncatedGaussianMeasure.integrate_x"],
                axioms=AX + ["G4 truncated Gaussian integrals", "jax.vmap: map over the leading axis"],
                order={("Dy", "Dk+Dr"): False, ("Dk", "Dk+Dr"): False},
-               sizes=[dict(Dy=2, Dx=3, Dk=2, Dr=2), dict(Dy=3, Dx=2, Dk=1, Dr=3)])(_mk_hetero_trunc(kind))
+               sizes=[dict(Dy=2, Dx=3, Dk=2, Dr=2), dict(Dy=3, Dx=2, Dk=1, Dr=3)])(_mk_hetero_trunc(kind, what))
     for kind, cls in (("exp", "HeteroscedasticExpConditional"), ("coshm1", "HeteroscedasticCoshM1Conditional")):
         F = [f"approximate_conditional.{cls}._integrate_noise_diagonal"] +             [f"approximate_conditional.HeteroscedasticConditional.{m}" for m in ("integrate_Sigma_x", "get_expected_moments", "get_expected_cross_terms",
              "affine_joint_transformation", "affine_conditional_transformation", "affine_marginal_transformation")]
